@@ -236,7 +236,7 @@ def EntOK (V : List BVal) (nb : List (Addr × List Addr)) (A : List Acct) (E : L
     A.contains acct = true ∧ (acct, s) ∈ E
 
 /-- `VisitDestination`: from `funding :: S`, run the destination and repay what it did not send -/
-theorem destination_ok {R : List Resource} {V : List BVal} {env : VEnv} (cx : Ctx R V env) {st st' : CState} {d : Dest} {c : Code}
+theorem destination_ok {R : List Resource} {V : List BVal} {env : VEnv} (cx : Ctx R V env) (hp : VPos V) {st st' : CState} {d : Dest} {c : Code}
     (hv : visitDestination st d = .ok (c, st')) (hsub : Sub st' R) (hidx : VarIdxOK st) (hf : d.frag = true)
     (m : Machine) (S : List BVal) (ks : List (Acct × Asset)) (b : Bal) (hok : BalOK m.balances.accts E b)
     (f : Fund) (hparts : PartsIn m.balances.accts f.parts) :
@@ -250,7 +250,7 @@ theorem destination_ok {R : List Resource} {V : List BVal} {env : VEnv} (cx : Ct
   · rename_i c1 st1 h1
     simp only [Except.ok.injEq, Prod.mk.injEq] at hv
     obtain ⟨rfl, rfl⟩ := hv
-    have hD := dest_ok (E := E) cx h1 hsub hidx hf m S ks b f hok hparts
+    have hD := dest_ok (E := E) cx hp h1 hsub hidx hf m S ks b f hok hparts
     simp only [finishSend]
     cases hev : evalDest env d f ⟨b, m.postings⟩ with
     | error er =>
@@ -295,7 +295,7 @@ theorem exec_pushAsset_mon {V : List BVal} {a : Addr} {s : Asset} {n : Int} (h :
   simp [exec, step, h, popValue, Machine.push]
 
 /-- what the code of a statement of the fragment does, in `Spec`'s words -/
-theorem stmt_ok {R : List Resource} {V : List BVal} {env : VEnv} (cx : Ctx R V env) {st st' : CState} {s : Stmt} {c : Code}
+theorem stmt_ok {R : List Resource} {V : List BVal} {env : VEnv} (cx : Ctx R V env) (hp : VPos V) {st st' : CState} {s : Stmt} {c : Code}
     (hv : visitStmt st s = .ok (c, st')) (hsub : Sub st' R) (hidx : VarIdxOK st) (hf : s.frag = true)
     {A : List Acct} (hE : EntOK V st'.needed A E) (m : Machine) (F : Full) (hrel : Rel A E m F) :
     match evalStmt env s F with
@@ -550,7 +550,7 @@ theorem stmt_ok {R : List Resource} {V : List BVal} {env : VEnv} (cx : Ctx R V e
                             obtain ⟨taken, b2⟩ := r
                             rw [htk] at hT
                             obtain ⟨hok2, hparts2, ks2, hex2⟩ := hT
-                            have hD := destination_ok (E := E) cx hdst hsub2 hidxT hfd (⟨[], ⟨accts, keys, F.st.bal⟩, F.st.postings, F.txMeta.map (fun kv => (kv.1, BVal.ofVal kv.2)), F.acctMeta.map (fun x => (x.1, x.2.1, BVal.ofVal x.2.2)), F.prints.map BVal.ofVal⟩ : Machine)
+                            have hD := destination_ok (E := E) cx hp hdst hsub2 hidxT hfd (⟨[], ⟨accts, keys, F.st.bal⟩, F.st.postings, F.txMeta.map (fun kv => (kv.1, BVal.ofVal kv.2)), F.acctMeta.map (fun x => (x.1, x.2.1, BVal.ofVal x.2.2)), F.prints.map BVal.ofVal⟩ : Machine)
                               [] ks2 b2 hok2 taken hparts2
                             simp only
                             cases hfin : finishSend env d taken ⟨b2, F.st.postings⟩ with
@@ -595,7 +595,7 @@ theorem stmt_ok {R : List Resource} {V : List BVal} {env : VEnv} (cx : Ctx R V e
                     rw [hsrcv] at hs1
                     obtain ⟨hfb, hok1, hparts, ks1, hex1⟩ := hs1
                     have hex1' : exec V so.code (⟨[], ⟨accts, keys, F.st.bal⟩, F.st.postings, F.txMeta.map (fun kv => (kv.1, BVal.ofVal kv.2)), F.acctMeta.map (fun x => (x.1, x.2.1, BVal.ofVal x.2.2)), F.prints.map BVal.ofVal⟩ : Machine) = _ := hex1
-                    have hD := destination_ok (E := E) cx hdst hsub2 hidxT hfd (⟨[], ⟨accts, keys, F.st.bal⟩, F.st.postings, F.txMeta.map (fun kv => (kv.1, BVal.ofVal kv.2)), F.acctMeta.map (fun x => (x.1, x.2.1, BVal.ofVal x.2.2)), F.prints.map BVal.ofVal⟩ : Machine)
+                    have hD := destination_ok (E := E) cx hp hdst hsub2 hidxT hfd (⟨[], ⟨accts, keys, F.st.bal⟩, F.st.postings, F.txMeta.map (fun kv => (kv.1, BVal.ofVal kv.2)), F.acctMeta.map (fun x => (x.1, x.2.1, BVal.ofVal x.2.2)), F.prints.map BVal.ofVal⟩ : Machine)
                       [] ks1 b1 hok1 f hparts
                     simp only
                     cases hfin : finishSend env d f ⟨b1, F.st.postings⟩ with
@@ -611,7 +611,7 @@ theorem stmt_ok {R : List Resource} {V : List BVal} {env : VEnv} (cx : Ctx R V e
 theorem EntOK.mono {V : List BVal} {A : List Acct} {st st' : CState} (h : EntOK V st'.needed A E) (he : Ext st st') :
     EntOK V st.needed A E := fun a x hin => h a x (he.mono a x hin)
 
-theorem stmts_ok {R : List Resource} {V : List BVal} {env : VEnv} (cx : Ctx R V env) {st st' : CState} {ss : List Stmt} {c : Code}
+theorem stmts_ok {R : List Resource} {V : List BVal} {env : VEnv} (cx : Ctx R V env) (hp : VPos V) {st st' : CState} {ss : List Stmt} {c : Code}
     (hv : visitStmts st ss = .ok (c, st')) (hsub : Sub st' R) (hidx : VarIdxOK st) (hf : ∀ s ∈ ss, s.frag = true)
     {A : List Acct} (hE : EntOK V st'.needed A E) (m : Machine) (F : Full) (hrel : Rel A E m F) :
     match evalStmts env ss F with
@@ -634,7 +634,7 @@ theorem stmts_ok {R : List Resource} {V : List BVal} {env : VEnv} (cx : Ctx R V 
         obtain ⟨rfl, rfl⟩ := hv
         have he2 := visitStmts_ext h2
         have he1 := visitStmt_ext h1
-        have hs := stmt_ok cx h1 (hsub.of_ext he2) hidx (hf s (List.mem_cons_self ..)) (hE.mono he2) m F hrel
+        have hs := stmt_ok cx hp h1 (hsub.of_ext he2) hidx (hf s (List.mem_cons_self ..)) (hE.mono he2) m F hrel
         simp only [evalStmts]
         cases hev : evalStmt env s F with
         | error er =>
@@ -723,7 +723,7 @@ def Script.frag (P : Script) : Prop := P.stmts ≠ [] ∧ ∀ s ∈ P.stmts, s.f
 `Spec`'s state, given resolved resources: same error, or a final machine that mirrors `Spec`'s final state
 (stack empty: no "stack not empty" panic) -/
 theorem execute_correct {P : Script} {prog : Program} (hc : compile P = .ok prog) (hfr : P.frag)
-    {V : List BVal} {env : VEnv} (cx : Ctx prog.resources V env) {A : List Acct} (hE : EntOK V prog.needed A E)
+    {V : List BVal} {env : VEnv} (cx : Ctx prog.resources V env) (hp : VPos V) {A : List Acct} (hE : EntOK V prog.needed A E)
     (m : Machine) (F : Full) (hrel : Rel A E m F) :
     match evalStmts env P.stmts F with
     | .error er => VM.execute prog.instrs V m = .error er
@@ -753,7 +753,7 @@ theorem execute_correct {P : Script} {prog : Program} (hc : compile P = .ok prog
               have := visitStmt_code_ne_nil hh
               intro hcontra
               exact this (List.append_eq_nil_iff.mp hcontra).1
-      have hs := stmts_ok cx h1 (fun a r hr => hr) hidx hfr.2 hE m F hrel
+      have hs := stmts_ok cx hp h1 (fun a r hr => hr) hidx hfr.2 hE m F hrel
       cases code with
       | nil => exact absurd rfl hne
       | cons i is =>
